@@ -132,7 +132,10 @@ def fixed : Variant := ⟨true, true⟩
 def afterFirstFix : Variant := ⟨true, false⟩
 def shipped : Variant := ⟨false, false⟩
 
-inductive Exit | normal | raises
+/-- every way the `with` block can be left once the body runs: the body ends; it raises an `Exception`; it raises a
+    `BaseException` that is not an `Exception` (SystemExit, KeyboardInterrupt, pytest's skip/fail outcomes, …); the generator
+    holding the block is closed (GeneratorExit thrown at its `yield`).  `finally:` treats them alike — which is the point. -/
+inductive Exit | normal | raises | raisesBase | generatorClosed
 deriving DecidableEq, Repr
 
 inductive Outcome
@@ -170,7 +173,7 @@ def patchRun (v : Variant) (w : World) (extras : List Slot) (x : Exit) : Result 
       match enterAll inst ⟨pre.1, []⟩ (targetsOf extras) with
       | (st, some r) => ⟨.setupFailed r, none, if v.loopInTry then cleanup inst st else st.w⟩
       | (st, none) =>
-        ⟨match x with | .normal => .completed | .raises => .bodyRaised, some st.w, cleanup inst st⟩
+        ⟨match x with | .normal => .completed | _ => .bodyRaised, some st.w, cleanup inst st⟩
 
 /-- environments the property speaks about: the two standard targets exist (`fakesnow/__init__.py` imports
     `snowflake.connector` and `snowflake.connector.pandas_tools` itself) -/
